@@ -604,9 +604,19 @@ munmap (void *addr, size_t len)
     {
       if (vh_on_release)
         vh_on_release (addr, b->n, 'M');
-      b->live = 0;
-      vh_mmap_live--;
-      vh_mmap_live_bytes -= b->n;
+      if (len < b->n)
+        {
+          /* only the head of the mapping is released: the tail stays mapped and stays in the ledger */
+          b->p = (char *) b->p + ((len + 4095) & ~(size_t) 4095);
+          b->n -= (len + 4095) & ~(size_t) 4095;
+          vh_mmap_live_bytes -= (len + 4095) & ~(size_t) 4095;
+        }
+      else
+        {
+          b->live = 0;
+          vh_mmap_live--;
+          vh_mmap_live_bytes -= b->n;
+        }
     }
   long r = syscall (SYS_munmap, addr, len);
   return (int) r;
